@@ -55,7 +55,18 @@ fn gen_cfg(prop : &str, thorough : bool, rng : &mut Rng) -> GenCfg
     {
         "C04" => { g.failing = true; g.missing_leaves = rng.chance(1, 2); },
         "C05" => { g.failing = rng.chance(1, 2); g.missing_leaves = rng.chance(1, 2); },
-        "C06" => { g.twins = true; g.shared_pool = true; g.empty_salts = true; g.cleans = 35; g.failing = rng.chance(1, 6); g.missing_leaves = false; },
+        "C06" =>
+        {
+            if rng.chance(1, 3)
+            {
+                // failures: which rules fail, get cancelled or still get built must not depend on the schedule either
+                g.failing = true; g.fail_rate = 8; g.missing_leaves = rng.chance(1, 2); g.goals = true; g.cleans = 10;
+            }
+            else
+            {
+                g.twins = true; g.shared_pool = true; g.empty_salts = true; g.cleans = 35; g.failing = rng.chance(1, 6); g.missing_leaves = false;
+            }
+        },
         _ => {},
     }
     g
@@ -377,7 +388,7 @@ pub fn run_one(cfg : &Config, seed : u64, k : u64, stats : &mut Stats) -> Vec<Fo
 
     // the victim invocation
     let victim_is_clean = match prop { "C05" => rng.chance(1, 4), _ => false };
-    let goal = if rng.chance(1, 4) { let ts : Vec<String> = gen.current_rules().iter().flat_map(|r| r.targets.clone()).collect(); if ts.len() > 0 { Some(rng.pick(&ts).clone()) } else { None } } else { None };
+    let goal = if rng.chance(if prop == "C06" { 2 } else { 1 }, 4) { let ts : Vec<String> = gen.current_rules().iter().flat_map(|r| r.targets.clone()).collect(); if ts.len() > 0 { Some(rng.pick(&ts).clone()) } else { None } } else { None };
     let victim = case.ops.len();
     case.ops.push(if victim_is_clean { Op::Clean{ goal : goal, sched : SchedSpec::serial() } } else { Op::Build{ goal : goal, sched : SchedSpec::serial() } });
 
